@@ -21,6 +21,11 @@ P = {
          "both maps are inserted into / deleted from on the same paths and empty per-phantom maps are removed; the sweep selects a record iff (unused && age>T_unused) || age>T_active, exhaustively over all valuations of its atoms; T_unused=10 min and T_active=6 h with no other writer; activation flips the looked-up record; a ticker loop sweeps. "
          "These are history-independent structural conditions; set-level behaviour over concrete histories and wall-clock timing are not decided.",
          "4/C08"),
+ "C14": (True, "effect analysis over the static call closure of the selection entry points, guard dominance, constant evaluation at call sites, value-flow of the port flag (go/ssa)",
+         "Decides: nothing reachable from Select/SelectPhantom* reads or writes process-global state (math/rand globals, weightedrand global Pick, time, package variables), so a result depends on its inputs alone under any schedule; "
+         "addresses are rendered at fixed family width; every crypto/rand.Int bound is a positive constant at all call sites or dominated by a positivity test (selection fails with an error instead of panicking); the family filter matching v6Support feeds each selection routine; "
+         "the address is built only under offset < netSize with a two-sided subnet match; the port-randomisation flag flows from the matched subnet's configuration. Arithmetic containment for every CIDR and uniformity are not decided.",
+         "4/C14"),
  "C18": (True, "finite predicate abstraction of the Lookup conditions, guard dominance (polarity, nil tests, sibling wiring), lockset guarded-by, must-pass pairing (go/ssa)",
          "Decides: each cache Lookup answers true iff the key is present and its age is below the expiration (all valuations); probe results go to the cache of their verdict and hits return their cache's verdict; the probe is reached only on a double miss; "
          "Init wires each cache only from its own duration/capacity setting and passes the capacity it tested; every call through an optional cache is dominated by a nil test of the same field; cache maps only under their mutex; LRU inserts are registered, evictions delete under the lock, LRU sized by the configured capacity. "
